@@ -5,6 +5,7 @@ package main
 
 import (
 	"encoding/binary"
+	"encoding/hex"
 	"encoding/json"
 	"flag"
 	"fmt"
@@ -38,6 +39,7 @@ type stats struct {
 	Variants      map[string]int `json:"ops_by_variant"`
 	Outcomes      map[string]int `json:"outcomes"`
 	SitesCovered  int            `json:"sites_covered"`
+	CoveredBits   string         `json:"covered_bits"` // hex bitmap of the yield sites this process executed
 	SitesTotal    int            `json:"sites_total"`
 	SwitchEdges   int            `json:"switch_edges"`
 	Aborted       map[string]int `json:"aborted_runs"`
@@ -494,11 +496,14 @@ func (st *stats) account(plan *Plan, info *planInfo, res *runResult) {
 }
 
 func (st *stats) finish(start time.Time) {
-	for _, c := range siteCover[:rt.NumSites] {
+	bits := make([]byte, (rt.NumSites+7)/8)
+	for i, c := range siteCover[:rt.NumSites] {
 		if c != 0 {
 			st.SitesCovered++
+			bits[i/8] |= 1 << (i % 8)
 		}
 	}
+	st.CoveredBits = hex.EncodeToString(bits)
 	st.SitesTotal = rt.NumSites
 	st.SwitchEdges = len(switchEdge)
 	st.PoolInputs, st.PoolOps = len(pool.inputs), len(pool.ops)
@@ -600,6 +605,16 @@ func workLoop(st *stats, refs *refTable, c workCfg, side *sideWriter) {
 				st.Failures[k-1].Replay.Prefix = prefix(idx)
 			}
 			break
+		}
+		// replay self-check: the recorded schedule, executed literally, must be the same
+		// execution (same event log, same outcomes) - what every replay file relies on
+		if n%64 == 5 && len(res.Fails) == 0 && res.Aborted == "" {
+			rec := res.Rec
+			res2 := execRun(plan, execOpts{lit: &rec, refs: refs})
+			st.Faults["replay-selfcheck"]++
+			if res2.LogHash != res.LogHash && len(res2.Fails) == 0 {
+				st.Harness = append(st.Harness, fmt.Sprintf("literal replay of seeded run %d diverged from the seeded execution (event log %016x vs %016x)", idx, res2.LogHash, res.LogHash))
+			}
 		}
 		if n%3 == 0 && len(res.Retained) > 0 {
 			slot := int(n/3) % longSlots
